@@ -190,7 +190,19 @@ def make_pool(rec, shared):
                 rec.pre |= snp.addresses(base)
             excs = []
             for t, it_ in enumerate(items):
-                before = [(obj, dict((k, id(v)) for k, v in vars(obj).items())) for obj in shared if hasattr(obj, "__dict__")]
+                # shared objects: the cube and aggregate objects, plus instances of the library's own classes that the
+                # task function holds in its closure (a helper object created once per calculate() is shared by all tasks)
+                held = []
+                for cell in (f.__closure__ or ()):
+                    try:
+                        o_ = cell.cell_contents
+                    except ValueError:
+                        continue
+                    for x_ in (o_ if isinstance(o_, (list, tuple)) else [o_]):
+                        if hasattr(x_, "__dict__") and not isinstance(x_, type) and not callable(x_) \
+                                and str(getattr(type(x_), "__module__", "")).split(".")[0] == "catii" and all(x_ is not y_ for y_ in shared):
+                            held.append(x_)
+                before = [(obj, dict((k, id(v)) for k, v in vars(obj).items())) for obj in list(shared) + held if hasattr(obj, "__dict__")]
                 cells_before = _cell_ids(f)
                 rec.task = t
                 try:
